@@ -35,7 +35,7 @@ fn render_tok(t: &str) -> String {
     if let Some(x) = t.strip_prefix("P:") { return x.to_string(); }
     if let Some(x) = t.strip_prefix("O:") { return x.to_string(); }
     if let Some(x) = t.strip_prefix("B:") {
-        let fields: Vec<String> = x.split(';').filter(|f| !f.is_empty()).map(|f| { let (n, e) = f.split_once('=').unwrap(); format!("{}: {}", n, e) }).collect();
+        let fields: Vec<String> = x.split(';').filter(|f| !f.is_empty()).map(|f| match f.split_once('=') { Some((n, e)) => format!("{}: {}", n, e), None => f.to_string() /* field shorthand: `{ x }` */ }).collect();
         return format!("{{ {} }}", fields.join(", "));
     }
     t.to_string()
@@ -478,7 +478,8 @@ fn gen_braces(r: &mut Rng) -> String {
             if compilable() && !n.contains('.') && !n.contains('e') { if r.chance(1, 2) { format!("{}f32", n) } else { format!("{}.0", n) } } else { n }
         };
         let e = match r.below(6) { 0 => format!("-{}", num(r)), 1 => if compilable() { "1.0+2.0".into() } else { "1+2".into() }, 2 => "foo(3)".into(), _ => num(r) };
-        format!("{}={}", names[i], e)
+        // one field in seven is written in Rust's field-init shorthand, `{ x }`: the value is the local variable `x`
+        if r.chance(1, 7) { names[i].to_string() } else { format!("{}={}", names[i], e) }
     }).collect();
     format!("B:{}", fs.join(";"))
 }
